@@ -82,6 +82,9 @@ MUT = {
  "r3-sender-memoised-per-ski": ("C01", "spine/device_local.go",
     "	sender := NewSender(writeI)\n	rDevice := NewDeviceRemote(r, ski, sender)",
     "	memoKey := fmt.Sprintf(\"%p-%s\", r, ski)\n	sender, ok := senderMemo[memoKey]\n	if !ok {\n		sender = NewSender(writeI)\n		senderMemo[memoKey] = sender\n	}\n	rDevice := NewDeviceRemote(r, ski, sender)"),
+ "r4-removal-entry-for-devinfo-not-skipped": ("C01", "spine/nodemanagement_detaileddiscovery.go",
+    "				if slices.Equal(entityAddress, DeviceInformationAddressEntity) {\n					continue\n				}\n",
+    "				_ = slices.Equal[[]model.AddressEntityType]\n"),
  "c03-entity-removal-keeps-bindings": ("C03", "spine/nodemanagement_detaileddiscovery.go",
     "				bindingMgr.RemoveBindingsForEntity(removedEntity)", "				_ = bindingMgr"),
 }
